@@ -15,7 +15,7 @@ from ..ai.world import Box
 from ..frontend import Program, norm_text
 from ..poly import p_add, p_const, show, to_poly
 from ..report import Instance, Report
-from .harness import parallel_map, run_op, where
+from .harness import parallel_map, run_op, where, valeq_instances
 from .symm import find_calls, is_cdf, swap_pair_roles
 
 TEAMS_LEN = ("len", "IN.teams", ())
@@ -58,6 +58,14 @@ def _job(job) -> List[Dict[str, Any]]:
         return out
     I, st = oc.I, oc.world.state
     res = oc.result
+    # ---- R9.6 teams are positions, not values
+    ve = valeq_instances(oc, "R9.6", "so identical teams do not get their pair terms (probabilities no longer sum to 1, two identical teams do not get one half each)")
+    for d in ve:
+        d["detail"] = dict(d["detail"], case=case)
+    out.extend(ve)
+    if ve:
+        return out
+    inst("R9.6", "HOLDS", f"no test on the value equality of teams or ratings ({case})")
     seq = I.list_seq(st, res) if isinstance(res, Ptr) else None
     if seq is None:
         inst("R9.5", "VIOLATED", f"result shape ({case})", f"predict_win returns {short(res)}, not a list")
